@@ -48,7 +48,7 @@ the later copies from its clone before the walk, so all output derives from elem
 attribute names, on which "the first `href`" and "every `href`" coincide. -/
 
 theorem convert_dedups_first :
-    Gen.converterConvertBody = ["clone := dom.Clone(root, true)", "domutil.RemoveDuplicateAttributes(clone)",
+    Gen.converterConvertBody = ["clone := domutil.Clone(root, true)", "domutil.RemoveDuplicateAttributes(clone)",
       "domutil.WalkNodes(clone, dc.visitNodeHandler, dc.exitNodeHandler)"] := by rfl
 
 /-- after the pass the attribute names of every element of the tree are pairwise distinct -/
